@@ -249,8 +249,24 @@ type Strategy func(net *Net, unstarted []*Node) int
 // process, can be attributed to a concrete run).
 var Inflight func(desc string)
 
+// FlipDefaultCurve: see Run.
+var FlipDefaultCurve = true
+var runCounter int
+
 // Run executes events until nothing is enabled. maxEvents bounds runaway loops.
 func (net *Net) Run(st Strategy, maxEvents int) {
+	// the process-wide default curve (tss.SetCurve) must not matter to a protocol run whose parameters name their curve:
+	// every other run is executed with the default set to the OTHER curve than the one the protocol uses
+	runCounter++
+	if FlipDefaultCurve {
+		ed := strings.HasPrefix(net.Proto, "eddsa")
+		if (runCounter%2 == 0) != ed {
+			tss.SetCurve(tss.Edwards())
+		} else {
+			tss.SetCurve(tss.S256())
+		}
+		defer tss.SetCurve(tss.S256())
+	}
 	if Inflight != nil {
 		d := net.Label
 		if d == "" {
@@ -313,6 +329,22 @@ func Starve(victim string) Strategy {
 		}
 		for i, c := range net.Pending {
 			if c.To.Name != victim {
+				return i
+			}
+		}
+		return 0
+	}
+}
+
+// HoldBack(tyIdx, from, to): one copy (the message of that type from `from` to `to`; to == "" holds every copy of that
+// message) is delivered only when nothing else is deliverable: a slow link / a broadcast channel slower than the point-to-point one.
+func HoldBack(tyIdx int, from, to string) Strategy {
+	return func(net *Net, un []*Node) int {
+		if len(un) > 0 {
+			return -1
+		}
+		for i, c := range net.Pending {
+			if !(c.TyIdx == tyIdx && c.From.Name == from && (to == "" || c.To.Name == to)) {
 				return i
 			}
 		}
